@@ -20,7 +20,7 @@ type Entry struct {
 	Step  int    `json:"step"`  // index of the client command during which it happened
 	Actor string `json:"actor"` // session that was executing ("" = nobody / rig)
 	Pool  string `json:"pool"`  // "g0/slice-0/master"
-	Role  string `json:"role"`  // master | slave
+	Role  string `json:"role"`  // master | slave | stat_slave | mon_master | mon_slave
 	Slice string `json:"slice"`
 	Conn  int    `json:"conn"`  // connection id, 0 for pool level entries without connection
 	Lease int    `json:"lease"` // acquisition id (every successful Get starts a new lease)
